@@ -206,7 +206,8 @@ namespace Givaro {
     inline Montgomery<int32_t>::Element&
     Montgomery<int32_t>::axmy(Element& r, const Element& a, const Element& b, const Element& c) const
     {
-        return this->subin(this->mul(r,a,b), c);
+        Element t; // r may be c
+        return this->sub(r, this->mul(t,a,b), c);
     }
 
     // r = c - a*b
